@@ -207,4 +207,164 @@ theorem coerceLitObj_eq_spec (Pm : Params) (S : Spec.CustomSpec) (env : Env) (hh
       · cases r <;> rfl
       · rfl
 
+
+/-! ## Variable route -/
+
+theorem toInL_eq_map : ∀ (xs : List CV), toInL xs = xs.map toIn
+  | [] => rfl
+  | x :: xs => by simp [toInL, toInL_eq_map xs]
+
+theorem lookup_toInF (name : String) : ∀ (m : List (String × CV)),
+    (toInF m).lookup name = (m.lookup name).map toIn
+  | [] => rfl
+  | (k, v) :: rest => by
+    simp only [toInF, List.lookup]
+    split <;> simp [lookup_toInF name rest]
+
+theorem all_hasName_toInF (fs : List FieldDef) : ∀ (m : List (String × CV)),
+    (toInF m).all (fun p => hasName fs p.1) = m.all (fun p => hasName fs p.1)
+  | [] => rfl
+  | p :: ps => by simp [toInF, all_hasName_toInF fs ps]
+
+theorem scalarVar_eq_spec (P : Parse) (s : Scalar) (v : CV)
+    (hf : (match v with
+      | .half h => !s.integral || h % 2 != 0
+      | .enum _ => !s.acceptsString
+      | _ => true) = true) :
+    scalarVar P s (toIn v) = ApiFu.C05.Spec.scalar P s v := by
+  cases s <;> cases v <;>
+    simp_all [scalarVar, ApiFu.C05.Spec.scalar, toIn, Scalar.integral, Scalar.acceptsString,
+      Int.mul_emod_right, Int.mul_ediv_cancel_left]
+
+theorem coerceVarT_eq_spec (Pm : Params) (S : Spec.CustomSpec) (cf : String → CV → Bool)
+    (hvar : ∀ n v, cf n v = true → notNil (Pm.customVar n (toIn v)) = S n v)
+    (k : String → List (String × In) → Option GoVal) (ks : String → List (String × CV) → Option GoVal)
+    (kf : String → List (String × CV) → Bool)
+    (hk : ∀ n m, CV.wfF m = true → kf n m = true → k n (toInF m) = ks n m) :
+    ∀ (T : Ty) (v : CV) (allow : Bool), v.wf = true → faithfulT cf kf T v = true →
+      coerceVarT Pm k T (toIn v) allow
+        = if allow then Spec.coerceT Pm.parse S ks T v
+          else (if isListish T && !(v.isList || v.isNull) then none else Spec.coerceT Pm.parse S ks T v) := by
+  intro T
+  induction T with
+  | scalar s =>
+    intro v allow _ hf
+    have := scalarVar_eq_spec Pm.parse s v (by cases v <;> simp_all [faithfulT])
+    cases v <;> cases allow <;> simp_all [coerceVarT, toIn, Spec.coerceT, isListish, isNonNull]
+  | custom n =>
+    intro v allow _ hf
+    cases v with
+    | null => cases allow <;> simp [coerceVarT, toIn, Spec.coerceT, isListish, isNonNull]
+    | int z => have := hvar n _ (by simpa [faithfulT] using hf); cases allow <;> simp_all [coerceVarT, toIn, Spec.coerceT, isListish]
+    | half z => have := hvar n _ (by simpa [faithfulT] using hf); cases allow <;> simp_all [coerceVarT, toIn, Spec.coerceT, isListish]
+    | str z => have := hvar n _ (by simpa [faithfulT] using hf); cases allow <;> simp_all [coerceVarT, toIn, Spec.coerceT, isListish]
+    | bool z => have := hvar n _ (by simpa [faithfulT] using hf); cases allow <;> simp_all [coerceVarT, toIn, Spec.coerceT, isListish]
+    | enum z => have := hvar n _ (by simpa [faithfulT] using hf); cases allow <;> simp_all [coerceVarT, toIn, Spec.coerceT, isListish]
+    | list z => have := hvar n _ (by simpa [faithfulT] using hf); cases allow <;> simp_all [coerceVarT, toIn, Spec.coerceT, isListish]
+    | obj z => have := hvar n _ (by simpa [faithfulT] using hf); cases allow <;> simp_all [coerceVarT, toIn, Spec.coerceT, isListish]
+  | enum n vals =>
+    intro v allow _ hf
+    cases v <;> cases allow <;> simp_all [coerceVarT, toIn, Spec.coerceT, isListish, isNonNull, faithfulT]
+  | ref n =>
+    intro v allow hw hf
+    cases v with
+    | obj m =>
+      simp only [CV.wf, Bool.and_eq_true] at hw
+      have := hk n m hw.2 (by simpa [faithfulT] using hf)
+      cases allow <;> simp [coerceVarT, toIn, Spec.coerceT, isListish, this]
+    | null => cases allow <;> simp [coerceVarT, toIn, Spec.coerceT, isListish, isNonNull]
+    | int z => cases allow <;> simp [coerceVarT, toIn, Spec.coerceT, isListish]
+    | half z => cases allow <;> simp [coerceVarT, toIn, Spec.coerceT, isListish]
+    | str z => cases allow <;> simp [coerceVarT, toIn, Spec.coerceT, isListish]
+    | bool z => cases allow <;> simp [coerceVarT, toIn, Spec.coerceT, isListish]
+    | enum z => cases allow <;> simp [coerceVarT, toIn, Spec.coerceT, isListish]
+    | list z => cases allow <;> simp [coerceVarT, toIn, Spec.coerceT, isListish]
+  | list t ih =>
+    intro v allow hw hf
+    have leaf : ∀ (w : CV), w.wf = true → faithfulT cf kf t w = true → w.isList = false → w.isNull = false →
+        coerceVarT Pm k (.list t) (toIn w) allow
+          = if allow then Spec.coerceT Pm.parse S ks (.list t) w
+            else (if isListish (.list t) && !(w.isList || w.isNull) then none else Spec.coerceT Pm.parse S ks (.list t) w) := by
+      intro w hww hfw hl hn
+      have ih' := ih w true hww hfw
+      simp only [if_true] at ih'
+      cases w <;> simp [CV.isList, CV.isNull] at hl hn <;> cases allow <;>
+        simp_all [coerceVarT, toIn, Spec.coerceT, isListish, CV.isList, CV.isNull]
+    cases v with
+    | null => cases allow <;> simp [coerceVarT, toIn, Spec.coerceT, isListish, isNonNull, CV.isNull, CV.isList]
+    | list xs =>
+      have hxs := wfL_forall (by simpa [CV.wf] using hw)
+      have hfs : ∀ x ∈ xs, faithfulT cf kf t x = true := by simpa [faithfulT] using hf
+      have items : mapAll (fun x => coerceVarT Pm k t x false) (toInL xs)
+          = mapAll (fun x => if (isListish t && !(x.isList || x.isNull)) = true then none
+              else Spec.coerceT Pm.parse S ks t x) xs := by
+        rw [toInL_eq_map, mapAll_map]
+        apply mapAll_congr
+        intro x hx
+        simpa using ih x false (hxs x hx) (hfs x hx)
+      cases allow <;>
+        simp [coerceVarT, toIn, Spec.coerceT, isListish, CV.isList, CV.isNull, items]
+    | int z => exact leaf _ hw (by simpa [faithfulT] using hf) rfl rfl
+    | half z => exact leaf _ hw (by simpa [faithfulT] using hf) rfl rfl
+    | str z => exact leaf _ hw (by simpa [faithfulT] using hf) rfl rfl
+    | bool z => exact leaf _ hw (by simpa [faithfulT] using hf) rfl rfl
+    | enum z => exact leaf _ hw (by simpa [faithfulT] using hf) rfl rfl
+    | obj z => exact leaf _ hw (by simpa [faithfulT] using hf) rfl rfl
+  | nonNull t ih =>
+    intro v allow hw hf
+    cases v with
+    | null => cases allow <;> simp [coerceVarT, toIn, Spec.coerceT, isListish, isNonNull, CV.isNull, CV.isList]
+    | int z => have ih' := ih _ allow hw (by simpa [faithfulT] using hf); cases allow <;> simp_all [coerceVarT, toIn, Spec.coerceT, isListish, CV.isNull, CV.isList]
+    | half z => have ih' := ih _ allow hw (by simpa [faithfulT] using hf); cases allow <;> simp_all [coerceVarT, toIn, Spec.coerceT, isListish, CV.isNull, CV.isList]
+    | str z => have ih' := ih _ allow hw (by simpa [faithfulT] using hf); cases allow <;> simp_all [coerceVarT, toIn, Spec.coerceT, isListish, CV.isNull, CV.isList]
+    | bool z => have ih' := ih _ allow hw (by simpa [faithfulT] using hf); cases allow <;> simp_all [coerceVarT, toIn, Spec.coerceT, isListish, CV.isNull, CV.isList]
+    | enum z => have ih' := ih _ allow hw (by simpa [faithfulT] using hf); cases allow <;> simp_all [coerceVarT, toIn, Spec.coerceT, isListish, CV.isNull, CV.isList]
+    | list z => have ih' := ih _ allow hw (by simpa [faithfulT] using hf); cases allow <;> simp_all [coerceVarT, toIn, Spec.coerceT, isListish, CV.isNull, CV.isList]
+    | obj z => have ih' := ih _ allow hw (by simpa [faithfulT] using hf); cases allow <;> simp_all [coerceVarT, toIn, Spec.coerceT, isListish, CV.isNull, CV.isList]
+
+theorem coerceVarFields_eq_spec {rec : Ty → In → Option GoVal} {srec : Ty → CV → Option GoVal}
+    {frec : Ty → CV → Bool} (m : List (String × CV))
+    (hrec : ∀ t v, (∃ name, m.lookup name = some v) → frec t v = true → rec t (toIn v) = srec t v) :
+    ∀ (fs : List FieldDef), faithfulFields frec fs m = true →
+      coerceVarFields rec fs (toInF m) = Spec.coerceFields srec fs m
+  | [], _ => rfl
+  | f :: rest, hf => by
+    simp only [faithfulFields, Bool.and_eq_true] at hf
+    simp only [coerceVarFields, Spec.coerceFields]
+    rw [coerceVarFields_eq_spec m hrec rest hf.2, lookup_toInF]
+    cases hl : m.lookup f.name with
+    | none => simp
+    | some v => simp [hrec f.ty v ⟨_, hl⟩ (by simpa [hl] using hf.1)]
+
+theorem coerceVarObj_eq_spec (Pm : Params) (S : Spec.CustomSpec) (cf : String → CV → Bool) (env : Env)
+    (hvar : ∀ n v, cf n v = true → notNil (Pm.customVar n (toIn v)) = S n v) :
+    ∀ (fuel : Nat) (n : String) (m : List (String × CV)), CV.wfF m = true → faithfulObj cf env fuel n m = true →
+      coerceVarObj Pm env fuel n (toInF m) = Spec.coerceObj Pm S env fuel n m := by
+  intro fuel
+  induction fuel with
+  | zero => intro n m _ _; rfl
+  | succ fuel ih =>
+    intro n m hw hf
+    simp only [coerceVarObj, Spec.coerceObj]
+    simp only [faithfulObj] at hf
+    cases hl : env.lookup n with
+    | none => rfl
+    | some od =>
+      simp only [hl] at hf
+      have hrec : ∀ t v, (∃ name, m.lookup name = some v) →
+          faithfulT cf (fun n' m' => faithfulObj cf env fuel n' m') t v = true →
+          coerceVarT Pm (fun n' m' => coerceVarObj Pm env fuel n' m') t (toIn v) true
+            = Spec.coerceT Pm.parse S (fun n' m' => Spec.coerceObj Pm S env fuel n' m') t v := by
+        intro t v ⟨name, hlv⟩ hfv
+        have := coerceVarT_eq_spec Pm S cf hvar (fun n' m' => coerceVarObj Pm env fuel n' m')
+          (fun n' m' => Spec.coerceObj Pm S env fuel n' m') (fun n' m' => faithfulObj cf env fuel n' m')
+          (fun n' m' h1 h2 => ih n' m' h1 h2) t v true (wfF_lookup hw hlv) hfv
+        simpa using this
+      simp only [all_hasName_toInF]
+      rw [coerceVarFields_eq_spec m hrec od.fields hf]
+      generalize Spec.coerceFields _ od.fields m = r
+      split
+      · cases r <;> rfl
+      · rfl
+
 end ApiFu.C05.R
